@@ -483,7 +483,7 @@ def sized_table(rng, target):
         pool.setdefault(ln, ip)
     routes, total = [], 0
     lens = sorted(pool)
-    lo, hi = lens[0], lens[-1]
+    hi = lens[-1]
     while target - total > 3 * hi:
         ip = rand_addr(rng) & 0xffffff00
         if (ip >> 24) in (0, 127):
@@ -688,7 +688,7 @@ def correspondence(ctx):
         return im
 
     fmts = [("ip", "ip"), ("netstat", "netstat-linux"), ("netstat", "netstat-bsd")]
-    ntab = 60 if quick else 1500
+    ntab = 60 if quick else 5000
     for k in range(ntab):
         tool, fmt = fmts[k % 3]
         n = rng.choice([0, 1, 2, 3, 10, 50, rng.randint(0, 200)])
@@ -787,7 +787,7 @@ def correspondence(ctx):
                               {"kind": "delivery", "tool": tool, "text_hex": hx(text)[:6000], "auto_nets": auto, "v4": v4, "v6": v6,
                                "got": got[:300], "want": want[:300]})
 
-    for k in range(24 if quick else 300):
+    for k in range(24 if quick else 600):
         tool, fmt = fmts[k % 3]
         n = rng.choice([0, 1, 2, 5, 30, rng.randint(0, 400)])
         text, exp, hj = gen_table(rng, fmt, n, junk_rate=0.0)
